@@ -1,8 +1,468 @@
-//! engine `backends` (stub: to be filled in)
-use crate::util::Tr;
+//! C09: seeded random editing histories run against BOTH graph backends; after every
+//! operation the full observable state of each is logged.  Vertex identity across backends
+//! is a unique tag stored in the `row` coordinate (names differ: the vector backend reuses
+//! freed names, the hash backend never does).  TLC (mc/Trace_Backends) checks the internal
+//! invariants on each logged observable and that both equal the abstract model in tag space.
+
+use crate::absg::{et_from, expr_json, parity_json, phase_json, sc_json};
+use crate::util::{arg_num, guarded, Tr};
+use num::Rational64;
+use quizx::graph::*;
+use quizx::params::{Expr, Parity};
+use quizx::phase::Phase;
+use quizx::scalar::{FromPhase, Scalar4};
+use rand::rngs::StdRng;
+use rand::Rng;
 use serde_json::{json, Value};
 
-#[allow(unused_variables)]
+fn ty_of(s: &str) -> VType {
+    match s {
+        "B" => VType::B,
+        "X" => VType::X,
+        _ => VType::Z,
+    }
+}
+fn ty_s(t: VType) -> &'static str {
+    match t {
+        VType::B => "B",
+        VType::Z => "Z",
+        VType::X => "X",
+        _ => "other",
+    }
+}
+fn ets(t: EType) -> &'static str {
+    match t {
+        EType::N => "N",
+        EType::H => "H",
+        _ => "W",
+    }
+}
+
+fn tag_of(g: &impl GraphLike, v: V) -> i64 {
+    g.row(v) as i64
+}
+fn name_of(g: &impl GraphLike, tag: i64) -> Option<V> {
+    g.vertices().find(|&v| tag_of(g, v) == tag)
+}
+
+/// everything the public interface shows, enumeration order removed by sorting, multiplicity kept
+pub fn obs(g: &impl GraphLike) -> Value {
+    let mut vs: Vec<V> = g.vertices().collect();
+    vs.sort();
+    let verts: Vec<Value> = vs
+        .iter()
+        .map(|&v| {
+            let d = g.vertex_data(v);
+            let (vars, vc) = parity_json(&d.vars);
+            json!({"name": v, "tag": tag_of(g, v), "ty": ty_s(d.ty), "ph": phase_json(d.phase), "vars": vars, "vc": vc, "q": d.qubit as i64})
+        })
+        .collect();
+    let mut es: Vec<(V, V, &str)> = g.edges().map(|(a, b, t)| (a, b, ets(t))).collect();
+    es.sort();
+    let adj: Vec<Value> = vs
+        .iter()
+        .map(|&v| {
+            let mut inc: Vec<(V, &str)> = g.incident_edges(v).map(|(u, t)| (u, ets(t))).collect();
+            inc.sort();
+            let mut nb: Vec<V> = g.neighbors(v).collect();
+            nb.sort();
+            json!({"v": v, "deg": g.degree(v), "inc": inc, "nbrs": nb})
+        })
+        .collect();
+    let top = g.vindex() + 2;
+    let contains: Vec<V> = (0..top).filter(|&v| g.contains_vertex(v)).collect();
+    let mut sf: Vec<(Value, Value)> = g.scalar_factors().map(|(e, s)| (expr_json(e), sc_json(s))).collect();
+    sf.sort_by_key(|(c, _)| c.to_string());
+    let sf: Vec<Value> = sf.into_iter().map(|(c, s)| json!({"cond": c, "sc": s})).collect();
+    // point queries
+    let mut conn = vec![];
+    for &a in &vs {
+        for &b in &vs {
+            if g.connected(a, b) {
+                conn.push(json!([a, b, ets(g.edge_type(a, b))]));
+            }
+        }
+    }
+    let mut vvec = g.vertex_vec();
+    vvec.sort();
+    let evec_len = g.edge_vec().len();
+    let found_z = g.find_vertex(|v| g.vertex_type(v) == VType::Z).map(|v| json!(tag_of(g, v))).unwrap_or(json!("none"));
+    let found_h = g
+        .find_edge(|_, _, t| t == EType::H)
+        .map(|(a, b, _)| {
+            let (x, y) = (tag_of(g, a), tag_of(g, b));
+            json!([x.min(y), x.max(y)])
+        })
+        .unwrap_or(json!("none"));
+    json!({"verts": verts, "edges": es, "adj": adj, "ins": g.inputs(), "outs": g.outputs(), "numv": g.num_vertices(),
+           "nume": g.num_edges(), "vindex": g.vindex(), "sc": sc_json(g.scalar()), "sf": sf, "contains": contains, "conn": conn,
+           "vvec": vvec, "evec_len": evec_len, "found_z": found_z, "found_h": found_h})
+}
+
+fn ph(k: i64) -> Phase {
+    Phase::new(Rational64::new(k, 4))
+}
+
+/// apply one abstract operation (arguments are tags) to a backend; returns "ok"/"err"/"panic" and extra fields
+fn apply<G: GraphLike>(g: &mut G, op: &Value, side: &mut Vec<G>) -> Value {
+    let o = op["op"].as_str().unwrap();
+    let t = |k: &str| op[k].as_i64().unwrap();
+    let nm = |g: &G, k: &str| name_of(g, op[k].as_i64().unwrap()).expect("tag must be live");
+    let r = guarded(|| -> Value {
+        match o {
+            "add_vertex" => {
+                let v = g.add_vertex(ty_of(op["ty"].as_str().unwrap()));
+                g.set_row(v, t("tag") as f64);
+                json!({"res": "ok", "name": v})
+            }
+            "add_with_data" => {
+                let v = g.add_vertex_with_data(VData {
+                    ty: ty_of(op["ty"].as_str().unwrap()),
+                    phase: ph(t("ph")),
+                    vars: Parity::new(op["vars"].as_array().unwrap().iter().map(|x| x.as_u64().unwrap() as u32).collect::<Vec<u32>>(), false),
+                    qubit: t("q") as f64,
+                    row: t("tag") as f64,
+                });
+                json!({"res": "ok", "name": v})
+            }
+            "add_named" => {
+                let d = VData { ty: VType::Z, row: t("tag") as f64, ..Default::default() };
+                match g.add_named_vertex_with_data(t("name") as usize, d) {
+                    Ok(()) => json!({"res": "ok", "name": t("name")}),
+                    Err(_) => json!({"res": "err"}),
+                }
+            }
+            "remove_vertex" => {
+                let v = nm(g, "t");
+                g.remove_vertex(v);
+                json!({"res": "ok"})
+            }
+            "add_edge" => {
+                let (a, b) = (nm(g, "s"), nm(g, "t"));
+                g.add_edge_with_type(a, b, et_from(op["et"].as_str().unwrap()));
+                json!({"res": "ok"})
+            }
+            "remove_edge" => {
+                let (a, b) = (nm(g, "s"), nm(g, "t"));
+                g.remove_edge(a, b);
+                json!({"res": "ok"})
+            }
+            "set_edge_type" => {
+                let (a, b) = (nm(g, "s"), nm(g, "t"));
+                g.set_edge_type(a, b, et_from(op["et"].as_str().unwrap()));
+                json!({"res": "ok"})
+            }
+            "toggle_edge_type" => {
+                let (a, b) = (nm(g, "s"), nm(g, "t"));
+                g.toggle_edge_type(a, b);
+                json!({"res": "ok"})
+            }
+            "add_edge_smart" => {
+                let (a, b) = (nm(g, "s"), nm(g, "t"));
+                g.add_edge_smart(a, b, et_from(op["et"].as_str().unwrap()));
+                json!({"res": "ok"})
+            }
+            "set_type" => {
+                let v = nm(g, "t");
+                g.set_vertex_type(v, ty_of(op["ty"].as_str().unwrap()));
+                json!({"res": "ok"})
+            }
+            "set_phase" => {
+                let v = nm(g, "t");
+                g.set_phase(v, ph(t("ph")));
+                json!({"res": "ok"})
+            }
+            "add_to_phase" => {
+                let v = nm(g, "t");
+                g.add_to_phase(v, ph(t("ph")));
+                json!({"res": "ok"})
+            }
+            "set_vars" | "add_to_vars" => {
+                let v = nm(g, "t");
+                let p = Parity::new(op["vars"].as_array().unwrap().iter().map(|x| x.as_u64().unwrap() as u32).collect::<Vec<u32>>(), false);
+                if o == "set_vars" {
+                    g.set_vars(v, p);
+                } else {
+                    g.add_to_vars(v, &p);
+                }
+                json!({"res": "ok"})
+            }
+            "set_qubit" => {
+                let v = nm(g, "t");
+                g.set_qubit(v, t("q") as f64);
+                json!({"res": "ok"})
+            }
+            "set_coord" => {
+                let v = nm(g, "t");
+                let row = g.row(v);
+                g.set_coord(v, Coord::new(row, t("q") as f64));
+                json!({"res": "ok"})
+            }
+            "set_inputs" | "set_outputs" => {
+                let names: Vec<V> = op["ts"].as_array().unwrap().iter().map(|x| name_of(g, x.as_i64().unwrap()).unwrap()).collect();
+                if o == "set_inputs" {
+                    g.set_inputs(names);
+                } else {
+                    g.set_outputs(names);
+                }
+                json!({"res": "ok"})
+            }
+            "push_output" => {
+                let v = nm(g, "t");
+                g.outputs_mut().push(v);
+                json!({"res": "ok"})
+            }
+            "mul_sqrt2" => {
+                g.scalar_mut().mul_sqrt2_pow(t("p") as i32);
+                json!({"res": "ok"})
+            }
+            "mul_phase" => {
+                g.scalar_mut().mul_phase(ph(t("ph")));
+                json!({"res": "ok"})
+            }
+            "mul_sf" => {
+                let p = Parity::new(op["vars"].as_array().unwrap().iter().map(|x| x.as_u64().unwrap() as u32).collect::<Vec<u32>>(), false);
+                g.mul_scalar_factor(Expr::linear(p), Scalar4::from_phase(ph(t("ph"))));
+                json!({"res": "ok"})
+            }
+            "pack" => {
+                g.pack(op["force"].as_bool().unwrap());
+                json!({"res": "ok"})
+            }
+            "clone_aside" => {
+                side.push(g.clone());
+                json!({"res": "ok"})
+            }
+            "subgraph" => {
+                let names: Vec<V> = op["ts"].as_array().unwrap().iter().map(|x| name_of(g, x.as_i64().unwrap()).unwrap()).collect();
+                let s = g.subgraph_from_vertices(names);
+                json!({"res": "ok", "sub": obs(&s)})
+            }
+            "append_self" => {
+                // append a copy of the graph to itself; the copies get tags old + off
+                let other = g.clone();
+                let vmap = g.append_graph(&other);
+                let off = t("off");
+                let mut pairs: Vec<(i64, usize)> = vec![];
+                for (old, new) in vmap.iter() {
+                    pairs.push((tag_of(&other, *old), *new));
+                }
+                for (tg, new) in pairs {
+                    g.set_row(new, (tg + off) as f64);
+                }
+                json!({"res": "ok", "mapped": vmap.len()})
+            }
+            _ => panic!("op {o}"),
+        }
+    });
+    match r {
+        Ok(v) => v,
+        Err(m) => json!({"res": "panic", "msg": m}),
+    }
+}
+
+struct Model {
+    tags: Vec<i64>,
+    edges: Vec<(i64, i64)>,
+    ins: Vec<i64>,
+    outs: Vec<i64>,
+    next: i64,
+    types: std::collections::HashMap<i64, &'static str>,
+}
+
+fn gen_op(r: &mut StdRng, m: &mut Model, max_live: usize, names_vec: &dyn Fn(usize) -> bool, names_hash: &dyn Fn(usize) -> bool, top: usize) -> Value {
+    let pick = |r: &mut StdRng, v: &Vec<i64>| v[r.random_range(0..v.len())];
+    for _ in 0..50 {
+        let c = r.random_range(0..100);
+        let live = m.tags.len();
+        if c < 16 && live < max_live {
+            let tag = m.next;
+            m.next += 1;
+            m.tags.push(tag);
+            let ty = ["Z", "X", "B"][r.random_range(0..3)];
+            m.types.insert(tag, ty);
+            return if r.random_bool(0.5) {
+                json!({"op": "add_vertex", "ty": ty, "tag": tag})
+            } else {
+                json!({"op": "add_with_data", "ty": ty, "ph": r.random_range(0..8), "vars": if r.random_bool(0.3) { vec![r.random_range(0..3u32)] } else { vec![] }, "q": r.random_range(0..5), "tag": tag})
+            };
+        }
+        if c < 24 {
+            // named insertion: a name with the same status in both backends (or beyond both ranges)
+            let cands: Vec<usize> = (0..top + 4).filter(|&n| names_vec(n) == names_hash(n)).collect();
+            if cands.is_empty() {
+                continue;
+            }
+            let n = cands[r.random_range(0..cands.len())];
+            let tag = m.next;
+            m.next += 1;
+            if !names_vec(n) && live < max_live + 2 {
+                m.tags.push(tag);
+                m.types.insert(tag, "Z");
+            } else if !names_vec(n) {
+                m.next -= 1;
+                continue;
+            }
+            return json!({"op": "add_named", "name": n, "tag": tag});
+        }
+        if c < 36 && live > 0 {
+            let cands: Vec<i64> = m.tags.iter().copied().filter(|t| !m.ins.contains(t) && !m.outs.contains(t)).collect();
+            if cands.is_empty() {
+                continue;
+            }
+            let t = pick(r, &cands);
+            m.tags.retain(|x| *x != t);
+            m.edges.retain(|&(a, b)| a != t && b != t);
+            return json!({"op": "remove_vertex", "t": t});
+        }
+        if c < 52 && live >= 2 {
+            let (a, b) = (pick(r, &m.tags), pick(r, &m.tags));
+            if a == b || m.edges.contains(&(a.min(b), a.max(b))) {
+                continue;
+            }
+            m.edges.push((a.min(b), a.max(b)));
+            return json!({"op": "add_edge", "s": a, "t": b, "et": if r.random_bool(0.5) { "N" } else { "H" }});
+        }
+        if c < 60 && !m.edges.is_empty() {
+            let i = r.random_range(0..m.edges.len());
+            let (a, b) = m.edges.swap_remove(i);
+            let (a, b) = if r.random_bool(0.5) { (a, b) } else { (b, a) };
+            return json!({"op": "remove_edge", "s": a, "t": b});
+        }
+        if c < 66 && !m.edges.is_empty() {
+            let (a, b) = m.edges[r.random_range(0..m.edges.len())];
+            let (a, b) = if r.random_bool(0.5) { (a, b) } else { (b, a) };
+            return if r.random_bool(0.5) {
+                json!({"op": "set_edge_type", "s": a, "t": b, "et": if r.random_bool(0.5) { "N" } else { "H" }})
+            } else {
+                json!({"op": "toggle_edge_type", "s": a, "t": b})
+            };
+        }
+        if c < 72 && live >= 2 {
+            // smart insertion between spiders (Z/X): parallel edges and self-loops resolve with scalar corrections
+            let sp: Vec<i64> = m.tags.iter().copied().filter(|t| m.types[t] != "B").collect();
+            if sp.is_empty() {
+                continue;
+            }
+            let (a, b) = (pick(r, &sp), pick(r, &sp));
+            // the model cannot know whether the edge survives: resynchronised from the observation by the caller
+            return json!({"op": "add_edge_smart", "s": a, "t": b, "et": if r.random_bool(0.5) { "N" } else { "H" }});
+        }
+        if c < 80 && live > 0 {
+            let t = pick(r, &m.tags);
+            return match r.random_range(0..6) {
+                0 => {
+                    let ty = ["Z", "X", "B"][r.random_range(0..3)];
+                    m.types.insert(t, ty);
+                    json!({"op": "set_type", "t": t, "ty": ty})
+                }
+                1 => json!({"op": "set_phase", "t": t, "ph": r.random_range(0..8)}),
+                2 => json!({"op": "add_to_phase", "t": t, "ph": r.random_range(0..8)}),
+                3 => json!({"op": "set_vars", "t": t, "vars": [r.random_range(0..3)]}),
+                4 => json!({"op": "add_to_vars", "t": t, "vars": [r.random_range(0..3)]}),
+                _ => json!({"op": if r.random_bool(0.5) { "set_qubit" } else { "set_coord" }, "t": t, "q": r.random_range(0..9)}),
+            };
+        }
+        if c < 86 && live > 0 {
+            let n = r.random_range(0..=live.min(3));
+            let mut ts = m.tags.clone();
+            for i in (1..ts.len()).rev() {
+                ts.swap(i, r.random_range(0..=i));
+            }
+            ts.truncate(n);
+            return if r.random_bool(0.5) {
+                m.ins = ts.clone();
+                json!({"op": "set_inputs", "ts": ts})
+            } else {
+                m.outs = ts.clone();
+                json!({"op": "set_outputs", "ts": ts})
+            };
+        }
+        if c < 90 {
+            return match r.random_range(0..3) {
+                0 => json!({"op": "mul_sqrt2", "p": r.random_range(-3..4)}),
+                1 => json!({"op": "mul_phase", "ph": r.random_range(0..8)}),
+                _ => json!({"op": "mul_sf", "vars": [r.random_range(0..3)], "ph": r.random_range(1..8)}),
+            };
+        }
+        if c < 96 {
+            return json!({"op": "pack", "force": r.random_bool(0.6)});
+        }
+        if c < 98 && live > 0 {
+            let mut ts = m.tags.clone();
+            ts.retain(|_| r.random_bool(0.6));
+            return json!({"op": "subgraph", "ts": ts});
+        }
+        if c < 99 {
+            return json!({"op": "clone_aside"});
+        }
+        if live > 0 && live <= 4 && m.next < 900 {
+            let off = 1000 * (1 + m.next / 1000);
+            let extra: Vec<i64> = m.tags.iter().map(|t| t + off).collect();
+            let extra_e: Vec<(i64, i64)> = m.edges.iter().map(|&(a, b)| (a + off, b + off)).collect();
+            for t in &extra {
+                let ty = m.types[&(t - off)];
+                m.types.insert(*t, ty);
+            }
+            m.tags.extend(extra);
+            m.edges.extend(extra_e);
+            m.next = off + 1000;
+            return json!({"op": "append_self", "off": off});
+        }
+    }
+    json!({"op": "mul_sqrt2", "p": 0})
+}
+
 pub fn record(args: &[String], seed: u64, tr: &mut Tr) -> Value {
-    json!({"stub": true})
+    let histories: usize = arg_num(args, "--histories", 20);
+    let len: usize = arg_num(args, "--len", 60);
+    let max_live: usize = arg_num(args, "--maxlive", 7);
+    let mut r = crate::gens::rng(seed);
+    let mut nops = 0usize;
+    for _ in 0..histories {
+        let mut gv = quizx::vec_graph::Graph::new();
+        let mut gh = quizx::hash_graph::Graph::new();
+        let mut side_v: Vec<quizx::vec_graph::Graph> = vec![];
+        let mut side_h: Vec<quizx::hash_graph::Graph> = vec![];
+        let mut m = Model { tags: vec![], edges: vec![], ins: vec![], outs: vec![], next: 1, types: Default::default() };
+        tr.group();
+        tr.emit(json!({"k": "begin"}));
+        let n = r.random_range(len / 2..=len);
+        for _ in 0..n {
+            let top = gv.vindex().max(gh.vindex());
+            let (cv, ch) = (gv.clone(), gh.clone());
+            let op = gen_op(&mut r, &mut m, max_live, &|x| cv.contains_vertex(x), &|x| ch.contains_vertex(x), top);
+            let rv = apply(&mut gv, &op, &mut side_v);
+            let rh = apply(&mut gh, &op, &mut side_h);
+            nops += 1;
+            let (ov, oh) = (guarded(|| obs(&gv)), guarded(|| obs(&gh)));
+            let mut e = json!({"k": "op", "op": op, "rv": rv, "rh": rh});
+            match (ov, oh) {
+                (Ok(a), Ok(b)) => {
+                    // resynchronise the generator's edge list (smart insertion may delete or keep edges)
+                    m.edges = a["conn"].as_array().unwrap().iter().filter_map(|c| {
+                        let nm2tag = |n: u64| a["verts"].as_array().unwrap().iter().find(|v| v["name"].as_u64() == Some(n)).unwrap()["tag"].as_i64().unwrap();
+                        let (x, y) = (nm2tag(c[0].as_u64().unwrap()), nm2tag(c[1].as_u64().unwrap()));
+                        if x < y { Some((x, y)) } else { None }
+                    }).collect();
+                    e["ov"] = a;
+                    e["oh"] = b;
+                    tr.emit(e);
+                }
+                _ => {
+                    e["obs_panic"] = json!(true);
+                    tr.emit(e);
+                    break;
+                }
+            }
+            if rv["res"] == "panic" || rh["res"] == "panic" {
+                break;
+            }
+        }
+        // clones taken aside must be untouched by everything that happened afterwards: logged for TLC
+        for (i, (a, b)) in side_v.iter().zip(side_h.iter()).enumerate() {
+            tr.emit(json!({"k": "aside", "i": i + 1, "ov": obs(a), "oh": obs(b)}));
+        }
+    }
+    json!({"histories": histories, "ops": nops})
 }
